@@ -262,7 +262,7 @@ def impl_predicates(pid, op, impl):
             hits.append(("C12", "caller's header maps were modified"))
     if f and f[0] == "enc" and impl.startswith("ok") and "redec=ok" not in impl:
         hits.append(("C08*", "encoder output refused by the corresponding decoder"))
-    if f and f[0] == "reenc" and f[3] == "clear":
+    if f and f[0] == "reenc" and f[3] in ("clear", "trunc"):
         # C09: after discarding the retained raw bytes the re-encoding is a canonical form:
         # it decodes, and decoding / re-encoding it again changes nothing
         parts = impl.split()
